@@ -17,7 +17,10 @@ RULE = ("fixed x mobile sizes 1..40 x 1..25 (a third of the cases biased to <= 6
         "(different and identical partners), complete, complete with repeats; list order shuffled; evaluation configuration "
         "= independent draw / rigid motion + noise of the construction one (5% the same one). Dyadic stream: integer "
         "coordinates in [-4,4] / 2^k (k <= 3), exact binary64 arithmetic, exact ties frequent. Error stream: a restraint "
-        "index out of range on either side. A case is non-trivial when it is distinct and has more than one atom on some "
+        "index out of range on either side. Call sequences: half of the calculators (every restraint kind, hence every path) "
+        "are evaluated 2-5 times on the SAME object: independent redraws, the atoms of an earlier configuration with their "
+        "positions permuted (nearest-neighbour labels change), rigid motion + noise, and exact returns to an earlier "
+        "configuration; every call is one K case and one S evaluation. A case is non-trivial when it is distinct and has more than one atom on some "
         "side; the histogram records path taken, restraint kind, k, ties.")
 
 TIE = 1e-9       # relative gap of the two smallest squared distances below which "nearest" is undecided
@@ -97,8 +100,8 @@ def gen_case(rs, rkind=None):
             + rs.normal(size=(n2, 3)) * 0.05 * scale
     rkind = rkind or RESTR_KINDS[rs.randint(len(RESTR_KINDS))]
     restr = gen_restr(rs, n1, n2, rkind)
-    return {"stream": "generic", "geo": geo, "rkind": rkind, "m1": m1.tolist(), "m2c": m2c.tolist(),
-            "restr": restr, "m2e": m2e.tolist(), "none_arg": bool(rs.randint(2))}
+    return add_sequence(rs, {"stream": "generic", "geo": geo, "rkind": rkind, "m1": m1.tolist(), "m2c": m2c.tolist(),
+                             "restr": restr, "m2e": m2e.tolist(), "none_arg": bool(rs.randint(2))})
 
 
 def gen_dyadic(rs, rkind=None):
@@ -111,9 +114,51 @@ def gen_dyadic(rs, rkind=None):
     def pts(n):
         return rs.randint(-span, span + 1, size=(n, 3)).astype(float) / den
     rkind = rkind or RESTR_KINDS[rs.randint(len(RESTR_KINDS))]
-    return {"stream": "dyadic", "geo": "lattice%d" % span, "rkind": rkind, "m1": pts(n1).tolist(),
-            "m2c": pts(n2).tolist(), "restr": gen_restr(rs, n1, n2, rkind), "m2e": pts(n2).tolist(),
-            "none_arg": bool(rs.randint(2))}
+    return add_sequence(rs, {"stream": "dyadic", "geo": "lattice%d" % span, "rkind": rkind, "m1": pts(n1).tolist(),
+                             "m2c": pts(n2).tolist(), "restr": gen_restr(rs, n1, n2, rkind), "m2e": pts(n2).tolist(),
+                             "none_arg": bool(rs.randint(2))})
+
+
+def seq_of(case):
+    """the configurations the calculator is evaluated on, in call order"""
+    return [case["m2e"]] + list(case.get("more", []))
+
+
+def add_sequence(rs, case, force=False):
+    """with probability 1/2: 1-4 further configurations for the same calculator object"""
+    if not force and rs.randint(2):
+        return case
+    n2 = len(case["m2e"])
+    dyadic = case["stream"] == "dyadic"
+    ext = max(1e-3, float(np.abs(np.array(case["m1"])).max()))
+    seq = [np.array(case["m2e"], dtype=float)]
+    n_more = int(rs.randint(1, 5))
+    kinds = []
+    for t in range(n_more):
+        how = rs.choice(["redraw", "shuffle", "move", "revisit"])
+        if how == "revisit" and len(seq) < 2:
+            how = "shuffle"
+        if how == "move" and dyadic:
+            how = "redraw"
+        prev = seq[rs.randint(len(seq))]
+        if how == "redraw":
+            if dyadic:
+                den = 2.0 ** rs.randint(0, 4)
+                new = rs.randint(-4, 5, size=(n2, 3)).astype(float) / den
+            else:
+                new = rs.uniform(-1, 1, size=(n2, 3)) * ext
+        elif how == "shuffle":
+            new = prev[rs.permutation(n2)].copy()
+        elif how == "move":
+            new = (prev - prev.mean(axis=0)) @ random_rotation(rs).T + prev.mean(axis=0) \
+                + rs.uniform(-0.3, 0.3, size=3) * ext + rs.normal(size=(n2, 3)) * 0.05 * ext
+        else:
+            new = seq[rs.randint(len(seq) - 1)].copy()      # an EARLIER configuration, not the last one
+        kinds.append(how)
+        seq.append(new)
+    case["more"] = [c.tolist() for c in seq[1:]]
+    case["seq_kinds"] = kinds
+    return case
 
 
 def gen_error(rs):
@@ -155,6 +200,31 @@ def impl_chi2(case, m1=None, m2c=None, m2e=None, restr=None):
     except ValueError:
         return ("errvalue",)
     return ("val", float(val))
+
+
+def impl_seq(case):
+    """ONE Chi2Calculator object evaluated on every configuration of the case, in order:
+    list of outcomes (one per call), or [('errmake',)] when the construction raised."""
+    from gaddlemaps._backend import Chi2Calculator
+    m1 = np.array(case["m1"], dtype=float).reshape(-1, 3)
+    m2c = np.array(case["m2c"], dtype=float).reshape(-1, 3)
+    restr = case["restr"]
+    arg = [tuple(p) for p in restr] if restr else (None if case.get("none_arg") else [])
+    try:
+        calc = Chi2Calculator(m1, m2c, arg)
+    except IndexError:
+        return [("errmake",)]
+    outs = []
+    for conf in seq_of(case):
+        m2 = np.array(conf, dtype=float).reshape(-1, 3)
+        try:
+            with np.errstate(all="ignore"):
+                outs.append(("val", float(calc(m2))))
+        except IndexError:
+            outs.append(("errcall",))
+        except ValueError:
+            outs.append(("errvalue",))
+    return outs
 
 
 # ------------------------------------------------------------------ S oracle: the property sentence, naively
@@ -215,21 +285,36 @@ def oracle_case(case, rs=None):
     """list of failed clauses of the property on this input (empty = holds)."""
     m1, m2c, m2e, restr = case["m1"], case["m2c"], case["m2e"], [tuple(p) for p in case["restr"]]
     n1, n2 = len(m1), len(m2e)
-    if n1 < 1 or n2 < 1 or len(m2c) != n2 or any(not (0 <= i < n1 and 0 <= j < n2) for i, j in restr):
+    seq = seq_of(case)
+    if n1 < 1 or n2 < 1 or len(m2c) != n2 or any(len(c) != n2 for c in seq) or \
+            any(not (0 <= i < n1 and 0 <= j < n2) for i, j in restr):
         return []          # outside the property's domain
-    out = impl_chi2(case)
-    if out[0] != "val":
-        return ["raised %s on a valid input" % out[0]]
-    val = out[1]
+    # the SAME calculator object evaluated on every configuration of the sequence: each value must be the
+    # reference value of the configuration passed in, whatever it was evaluated on before
+    outs = impl_seq(case)
     bad = []
-    if not math.isfinite(val):
-        return ["non-finite value %r" % val]
-    if val < 0:
-        bad.append("negative value %r" % val)
-    S, ks, ties = reference(m1, m2e, restr)
-    if not any(close(val, S * 1.1 ** k) for k in ks):
-        bad.append("value %.17g differs from the reference definition: S=%.17g, k in %s -> %s" %
-                   (val, S, sorted(ks), [S * 1.1 ** k for k in sorted(ks)][:4]))
+    ties = False
+    val = None
+    for t, (out, conf) in enumerate(zip(outs, seq)):
+        tag = "call %d of %d: " % (t + 1, len(seq))
+        if out[0] != "val":
+            return [tag + "raised %s on a valid input" % out[0]]
+        v = out[1]
+        if not math.isfinite(v):
+            return [tag + "non-finite value %r" % v]
+        if v < 0:
+            bad.append(tag + "negative value %r" % v)
+        S, ks, ties_t = reference(m1, conf, restr)
+        if not any(close(v, S * 1.1 ** k) for k in ks):
+            bad.append(tag + "value %.17g differs from the reference definition: S=%.17g, k in %s -> %s" %
+                       (v, S, sorted(ks), [S * 1.1 ** k for k in sorted(ks)][:4]))
+        for u in range(t):
+            if seq[u] == conf and outs[u][0] == "val" and not close(outs[u][1], v, 1e-12):
+                bad.append(tag + "the same configuration gave %r at call %d and %r now" % (outs[u][1], u + 1, v))
+        if t == 0:
+            val, ties = v, ties_t
+    if bad:
+        return bad
     # value must not depend on the construction-time coordinates (only on their number)
     out2 = impl_chi2(case, m2c=m2e)
     if out2[0] != "val" or not close(out2[1], val, 1e-12):
@@ -280,11 +365,19 @@ def drop(case, kind, idx):
             return None
         c["m1"] = case["m1"][:idx] + case["m1"][idx + 1:]
         c["restr"] = [(i - (i > idx), j) for i, j in restr if i != idx]
+    elif kind == "call":
+        seq = seq_of(case)
+        if len(seq) <= 1:
+            return None
+        seq = seq[:idx] + seq[idx + 1:]
+        c["m2e"], c["more"] = seq[0], seq[1:]
     else:
         if len(case["m2e"]) <= 1:
             return None
         c["m2e"] = case["m2e"][:idx] + case["m2e"][idx + 1:]
         c["m2c"] = case["m2c"][:idx] + case["m2c"][idx + 1:]
+        if "more" in case:
+            c["more"] = [m[:idx] + m[idx + 1:] for m in case["more"]]
         c["restr"] = [(i, j - (j > idx)) for i, j in restr if j != idx]
     return c
 
@@ -300,15 +393,15 @@ def shrink(case, budget=600):
     changed = True
     while changed and budget > 0:
         changed = False
-        for kind, key in (("restr", "restr"), ("m1", "m1"), ("m2", "m2e")):
-            idx = len(case[key]) - 1
+        for kind, key in (("call", None), ("restr", "restr"), ("m1", "m1"), ("m2", "m2e")):
+            idx = (len(seq_of(case)) if key is None else len(case[key])) - 1
             while idx >= 0 and budget > 0:
                 c2 = drop(case, kind, idx)
                 budget -= 1
                 if c2 is not None and fails(c2):
                     case = c2
                     changed = True
-                idx = min(idx, len(case[key])) - 1
+                idx = min(idx, len(seq_of(case)) if key is None else len(case[key])) - 1
     return case
 
 
@@ -325,19 +418,28 @@ def report(ctx, case, bad):
         small = shrink(case)
         bad2 = oracle_case(small, np.random.RandomState(12345))
         if bad2:
-            case, bad = dict(small, shrunk_from=[len(case["m1"]), len(case["m2e"]), len(case["restr"])]), bad2
+            case, bad = dict(small, shrunk_from=[len(case["m1"]), len(case["m2e"]), len(case["restr"]),
+                                                 len(seq_of(case))]), bad2
     ctx.violation("chi2: " + "; ".join(bad), slim(case), key="chi2")
 
 
 def slim(case):
-    return {k: case[k] for k in ("stream", "geo", "rkind", "m1", "m2c", "restr", "m2e", "none_arg", "shrunk_from")
+    return {k: case[k] for k in ("stream", "geo", "rkind", "m1", "m2c", "restr", "m2e", "more", "seq_kinds", "none_arg",
+                                     "shrunk_from")
             if k in case}
 
 
 # ------------------------------------------------------------------ check entry points
-def _c(m1, m2c, restr, m2e, rkind):
-    return {"stream": "corpus", "geo": "hand", "rkind": rkind, "m1": m1, "m2c": m2c, "restr": restr, "m2e": m2e,
-            "none_arg": False}
+def _c(m1, m2c, restr, m2e, rkind, more=None):
+    c = {"stream": "corpus", "geo": "hand", "rkind": rkind, "m1": m1, "m2c": m2c, "restr": restr, "m2e": m2e,
+         "none_arg": False}
+    if more:
+        c["more"] = more
+    return c
+
+
+_CONF_A = [[0, 0, 1], [10, 0, 1], [30, 0, 0]]
+_CONF_B = [[0, 0, 1], [30, 0, 0], [10, 0, 2]]
 
 
 CORPUS = [
@@ -349,6 +451,11 @@ CORPUS = [
     # exact tie: the first-arg-min rule decides k (2.2 with this labelling, 2.0 with the mobile labels swapped)
     _c([[0, 0, 0], [2, 0, 0]], [[0, 0, 0], [0, 0, 0]], [], [[1, 0, 0], [-1, 0, 0]], "empty"),
     _c([[0, 0, 0], [2, 0, 0]], [[0, 0, 0], [0, 0, 0]], [], [[-1, 0, 0], [1, 0, 0]], "empty"),
+    # one calculator, three calls: the free fixed atom is nearest to mobile atom 1 in A and to atom 2 in B, then A
+    # again (2.2, 5.5, 2.2): state carried from one call to the next shows up at the second call
+    _c([[0, 0, 0], [10, 0, 0]], _CONF_A, [(0, 0)], _CONF_A, "partial", more=[_CONF_B, _CONF_A]),
+    _c([[0, 0, 0], [10, 0, 0]], _CONF_B, [], _CONF_A, "empty", more=[_CONF_B, _CONF_A]),
+    _c([[0, 0, 0], [10, 0, 0]], _CONF_B, [(0, 0), (1, 1)], _CONF_A, "complete", more=[_CONF_B, _CONF_A]),
     # one atom on each side
     _c([[0.5, 0.25, 0]], [[0, 0, 0]], [(0, 0)], [[1, 1, 1]], "complete"),
     _c([[0.5, 0.25, 0]], [[0, 0, 0]], [], [[1, 1, 1]], "empty"),
@@ -366,7 +473,7 @@ def corpus(ctx):
             report(ctx, case, bad)
 
 
-def coq_case(case, out):
+def coq_case(case, out, conf=None):
     exact = "true" if case["stream"] in ("dyadic", "corpus") else "false"
     obs = {"val": lambda: "(ObsVal %s)" % fl(out[1]), "errmake": lambda: "ObsErrMake",
            "errcall": lambda: "ObsErrCall", "errvalue": lambda: "ObsErrValue"}[out[0]]()
@@ -374,7 +481,17 @@ def coq_case(case, out):
     def pts(l):
         return lib.coq_list([v3(p) for p in l])
     restr = lib.coq_list(["(%d%%nat, %d%%nat)" % (i, j) for i, j in case["restr"]])
-    return "chk_chi2 %s %s %s %s %s %s" % (exact, pts(case["m1"]), pts(case["m2c"]), restr, pts(case["m2e"]), obs)
+    return "chk_chi2 %s %s %s %s %s %s" % (exact, pts(case["m1"]), pts(case["m2c"]), restr,
+                                           pts(case["m2e"] if conf is None else conf), obs)
+
+
+def assignment(m1, m2, restr):
+    """labels of the nearest mobile atom of every unrestrained fixed atom (histogram only)"""
+    a1, a2 = np.array(m1, dtype=float).reshape(-1, 3), np.array(m2, dtype=float).reshape(-1, 3)
+    free = sorted(set(range(len(a1))) - set(i for i, _ in restr))
+    if not free or not len(a2):
+        return ()
+    return tuple(((a1[free][:, None, :] - a2[None, :, :]) ** 2).sum(-1).argmin(1))
 
 
 def path_of(case):
@@ -387,8 +504,8 @@ def path_of(case):
 def correspondence(ctx):
     rs = ctx.np_rng("K")
     rs_o = ctx.np_rng("KS")
-    n_gen = ctx.n(1500, 15000)
-    n_dy = ctx.n(600, 6000)
+    n_gen = ctx.n(1000, 10000)
+    n_dy = ctx.n(400, 4000)
     n_err = ctx.n(40, 300)
     todo = [dict(c) for c in CORPUS]
     # every (restraint kind) x (small sizes) appears at least once, then the random streams
@@ -399,16 +516,27 @@ def correspondence(ctx):
     todo += [gen_dyadic(rs) for _ in range(n_dy)]
     todo += [gen_error(rs) for _ in range(n_err)]
     cases, meta = [], []
-    hist = {"stream": {}, "path": {}, "rkind": {}, "geo": {}, "k": {}, "ties": 0, "n_fixed": {}, "n_mobile": {}}
+    hist = {"stream": {}, "path": {}, "rkind": {}, "geo": {}, "k": {}, "ties": 0, "n_fixed": {}, "n_mobile": {},
+            "calls_per_calculator": {}, "later_calls_by_path": {}, "revisits": 0, "later_calls_with_changed_assignment": 0}
 
     def bump(d, k):
         d[k] = d.get(k, 0) + 1
     s_fail = 0
     for case in todo:
-        out = impl_chi2(case)
-        cases.append(coq_case(case, out))
-        meta.append(case)
+        outs = impl_seq(case)
+        out = outs[0]
+        seq = seq_of(case)
+        for t, o in enumerate(outs):
+            cases.append(coq_case(case, o, seq[t]))
+            meta.append(dict(case, call=t + 1))
         n1, n2 = len(case["m1"]), len(case["m2e"])
+        bump(hist["calls_per_calculator"], str(len(outs)))
+        if case["stream"] != "error":
+            for t in range(1, len(seq)):
+                bump(hist["later_calls_by_path"], path_of(case))
+                hist["revisits"] += int(any(seq[u] == seq[t] for u in range(t)))
+                hist["later_calls_with_changed_assignment"] += int(
+                    assignment(case["m1"], seq[t], case["restr"]) != assignment(case["m1"], seq[t - 1], case["restr"]))
         bump(hist["stream"], case["stream"])
         bump(hist["rkind"], case["rkind"])
         bump(hist["geo"], case["geo"])
@@ -421,19 +549,22 @@ def correspondence(ctx):
             bump(hist["k"], str(min(ks)) if min(ks) < 10 else "10+")
         else:
             bump(hist["path"], "error:" + out[0])
-        ctx.count(("K", case["m1"], case["m2c"], case["restr"], case["m2e"]), nontrivial=(n1 > 1 or n2 > 1))
+        for t in range(len(outs)):
+            ctx.count(("K", case["m1"], case["m2c"], case["restr"], seq[t], t), nontrivial=(n1 > 1 or n2 > 1))
         # S on the same cases
         bad = oracle_case(case, rs_o)
         if bad:
             s_fail += 1
             report(ctx, case, bad)
     for i in (len(CORPUS), len(CORPUS) + 11, len(todo) - n_err - 1):
-        c = meta[i]
+        c = todo[i]
         ctx.sample({"stream": c["stream"], "rkind": c["rkind"], "n_fixed": len(c["m1"]), "n_mobile": len(c["m2e"]),
-                    "restr": c["restr"][:6], "impl": impl_chi2(c)})
+                    "restr": c["restr"][:6], "calls": len(seq_of(c)), "seq_kinds": c.get("seq_kinds", []),
+                    "impl_per_call": impl_seq(c)})
     codes, log = lib.run_coq_cases(ctx.cid, "K", HEADER, cases, shard=ctx.n(140, 400))
     K = ctx.cov["K"]
     K["cases"] = len(cases)
+    K["calculators"] = len(todo)
     K["input_distribution"] = hist
     K["log"] = log
     K["oracle_failures_on_K_cases"] = s_fail
@@ -443,7 +574,8 @@ def correspondence(ctx):
     K["disagree"] = sum(1 for c in codes.values() if c in (1, 3))
     K["indeterminate"] = sum(1 for c in codes.values() if c == 2)
     K["agree"] = len(cases) - len(codes)
-    dis = [dict(slim(meta[i]), code=c, impl=list(impl_chi2(meta[i]))) for i, c in sorted(codes.items()) if c in (1, 3)]
+    dis = [dict(slim(meta[i]), call=meta[i]["call"], code=c, impl_per_call=[list(o) for o in impl_seq(meta[i])])
+           for i, c in sorted(codes.items()) if c in (1, 3)]
     # DESIGN 4.5: the oracle already ran on every K case above; a disagreement whose input passes the oracle
     # means the model is stale, one whose input fails it has been reported as a violation with that input.
     return dis
@@ -455,11 +587,14 @@ def oracle(ctx, scale):
     n = ctx.n(500, 6000) * scale
     nfail = 0
     ties = 0
+    ncalls = 0
     for t in range(n):
         case = gen_dyadic(rs) if t % 4 == 3 else gen_case(rs)
         bad = oracle_case(case, rs)
-        ctx.count(("S", case["m1"], case["m2c"], case["restr"], case["m2e"]),
-                  nontrivial=(len(case["m1"]) > 1 or len(case["m2e"]) > 1))
+        for t, conf in enumerate(seq_of(case)):
+            ctx.count(("S", case["m1"], case["m2c"], case["restr"], conf, t),
+                      nontrivial=(len(case["m1"]) > 1 or len(case["m2e"]) > 1))
+        ncalls += len(seq_of(case))
         if case["stream"] == "dyadic":
             ties += 1
         if bad:
@@ -467,6 +602,7 @@ def oracle(ctx, scale):
             report(ctx, case, bad)
     S["reference_nonneg_rigid_relabel_x%d" % scale] = n
     S["dyadic_cases_x%d" % scale] = ties
+    S["calls_on_those_calculators_x%d" % scale] = ncalls
     S["failures"] = S.get("failures", 0) + nfail
 
 
